@@ -34,6 +34,15 @@ def run(ctx):
     base, fails = run_lines(drv, ['mem %d 0 0 %d %s' % (sc, arg, b.hex()) for sc, arg, b, lab in cases])
     viol = []
     for x in fails: viol.append(dict(why='crash in the unlimited run', line=(x[0] or '')[:3000], stderr=x[1][-2000:]))
+    # sampled run: input offered 7 bytes per call, lzma_memusage() compared with the bytes live in the allocator after every call
+    cases_s = cases + [(5, 0, xzgen.index([(100 + i, 1000 + i) for i in range(rng.choice([9000, 30000]))]), 'index decoder, many records')]
+    samp, sf = run_lines(drv, ['memc %d 0 0 %d %s' % (sc, arg, b.hex()) for sc, arg, b, lab in cases_s])
+    for x in sf: viol.append(dict(why='crash in the sampled run', line=(x[0] or '')[:3000], stderr=x[1][-2000:]))
+    for (sc, arg, b, lab), o in zip(cases_s, samp):
+        if o is None: continue
+        t = o.split()
+        if t[1] != '1': viol.append(dict(why='sampled run of %s failed with %s' % (lab, t[1]), line='', stderr=''))
+        elif int(t[13]) > ALLOWANCE: viol.append(dict(why='%s, input offered 7 bytes per call: at some call %s bytes more were allocated than lzma_memusage() reported' % (lab, t[13]), line='memc %d 0 0 %d %s' % (sc, arg, b.hex()[:3000]), stderr=''))
     lines, meta = [], []
     probe, _pf = run_lines(drv, ['mem %d 0 1 %d %s' % (sc, arg, b.hex()) for sc, arg, b, lab in cases])
     for (sc, arg, b, lab), o, pr in zip(cases, base, probe):
@@ -41,6 +50,7 @@ def run(ctx):
         # the need = what the decoder reports when it refuses the smallest possible limit
         t = o.split(); need = int(pr.split()[6]); peak = int(t[3])
         if t[1] != '1': viol.append(dict(why='unlimited run of %s failed with %s' % (lab, t[1]), line='', stderr='')); continue
+        if len(t) > 13 and int(t[13]) > ALLOWANCE: viol.append(dict(why='%s: %s bytes more were allocated than lzma_memusage() reported at the same moment' % (lab, t[13]), line='', stderr=''))
         if peak > need + ALLOWANCE: viol.append(dict(why='%s: measured peak %d exceeds lzma_memusage() %d + allowance' % (lab, peak, need), line='', stderr=''))
         for lim in sorted({1, need // 2, need - 1, need, need + 1, max(1, need - 70000)}):
             if lim < 1: continue
@@ -100,6 +110,26 @@ def run(ctx):
         else:
             if lim < single and not errs: viol.append(dict(why='memlimit_stop %d below the single-thread need %d was not enforced' % (lim, single), line=l[:200], stderr=''))
             if lim >= single and errs: viol.append(dict(why='memlimit_stop %d >= need %d but MEMLIMIT_ERROR' % (lim, single), line=l[:200], stderr=''))
+    # ---- threaded decoder handle reused: the first file is decoded in direct mode with a large dictionary (no sizes in the
+    # Block Header), then the same handle is re-initialised for a file decoded by the workers.  What stays allocated
+    # must be covered by lzma_memusage() at every call (sampled with 7-byte input pieces).
+    rl, rm = [], []
+    for _ in range(3 if ctx.quick() else 30):
+        big = lzma.compress((xzgen.gen_data(rng, 3000) * 5)[:12000], format=lzma.FORMAT_XZ, filters=[{'id': lzma.FILTER_LZMA2, 'dict_size': rng.choice([1 << 22, 3 << 20, 1 << 23])}])
+        blocks = [((xzgen.gen_data(rng, 2000) * 5)[:rng.choice([3000, 9000])], [{'id': 'lzma2', 'dict_size': rng.choice([4096, 65536])}], {'comp_present': True, 'uncomp_present': True}) for _k in range(rng.randrange(2, 6))]
+        small = xzgen.stream(blocks, 1, rng)
+        for th in (2, 4):
+            for lim in (0, 400000, 3000000):
+                rl.append('reuse 1 %d %d %s %s' % (th, lim, big.hex(), small.hex())); rm.append((th, lim, 'direct-mode file then threaded file'))
+                rl.append('reuse 1 %d %d %s %s' % (th, lim, small.hex(), big.hex())); rm.append((th, lim, 'threaded file then direct-mode file'))
+    routs, rf = run_lines(drv, rl)
+    for x in rf: viol.append(dict(why='threaded decoder crashed when its handle was reused', line=(x[0] or '')[:300], stderr=x[1][-2000:]))
+    for (th, lim, lab), l, o in zip(rm, rl, routs):
+        if o is None: continue
+        t = o.split(); excess = int(t[4])
+        if t[0] != '1' or t[1] != '1': viol.append(dict(why='reused threaded decoder (%s): status %s/%s' % (lab, t[0], t[1]), line=l[:200], stderr=''))
+        elif excess > ALLOWANCE: viol.append(dict(why='reused threaded decoder (%s, %d threads, memlimit_threading %d): %d bytes more were allocated than lzma_memusage() reported' % (lab, th, lim, excess), line=l[:200], stderr=''))
+        elif int(t[7]) != 0: viol.append(dict(why='reused threaded decoder leaked %s bytes' % t[7], line=l[:200], stderr=''))
     # ---- xz tool: user-specified limit => stays within it or fails
     bdir = build('plain'); td = tempfile.mkdtemp(dir=WORK)
     try:
@@ -112,7 +142,7 @@ def run(ctx):
             if not expect_fail and r.returncode != 0: viol.append(dict(why='xz %s failed: %s' % (' '.join(args[:-1]), r.stderr.decode()[:200]), line='', stderr=''))
     finally:
         shutil.rmtree(td, ignore_errors=True)
-    ctx.cov['evaluations'] = len(lines) + len(elines) + len(tl) + 4 + len(cases)
+    ctx.cov['evaluations'] = len(lines) + len(elines) + len(tl) + len(rl) + 4 + len(cases)
     ctx.cov['distinct_nontrivial'] = len(stat) + len(emeta) + len(set((m[0], m[1] >= m[2]) for m in tm))
     ctx.cov['rule'] = 'decoders (stream, alone, auto, lzip, index, file_info) x dictionary sizes x limits {1, need/2, need-70000, need-1, need, need+1}; encoder estimates vs measured peak for 6 entry points x presets; threaded decoder on multi-Block files with varying chains under memlimit_threading (1x..3x single-thread need) and memlimit_stop (need-1, need, need+1); xz with user limits; distinct = (limit >= need?, error seen?) etc.'
     ctx.cov['input_distribution'] = dict(limited_runs=len(lines), estimate_runs=len(elines), mt_runs=len(tl))
